@@ -277,3 +277,22 @@ def import_flag(ctx):
     tl = calls(init, "self.write_toplevel")
     wr = calls(init, "self.write_render_callable")
     ctx.check(bool(wn) and bool(tl) and bool(wr) and tl[0].lineno < wr[0].lineno, "raised-before-use", db.where(init), "write_namespaces (which raises the flag) does not precede write_render_callable (which tests it)", "namespaces written first")
+
+
+@rule("C07.anonymous-namespace-names", min_instances=2)
+def anonymous_namespace_names(ctx):
+    """each <%namespace> without name= gets a name no other tag of the template can have (the generator keys its table of namespaces by name: equal names silently drop all but the last tag and its import=)"""
+    db = ctx.db
+    init = db.func("parsetree.NamespaceTag.__init__")
+    a = [s for s in walk_func(init) if isinstance(s, ast.Assign) and dotted(s.targets[0]) == "self.name"]
+    ctx.require(a, "NamespaceTag.__init__ does not assign self.name (anchor)")
+    v = a[0].value
+    dflt = v.args[1] if isinstance(v, ast.Call) and dotted(v.func) == "attributes.get" and len(v.args) == 2 else (v.orelse if isinstance(v, ast.IfExp) else None)
+    ctx.require(dflt is not None, "default of the namespace name not recognised")
+    names = {dotted(x.func) for x in ast.walk(dflt) if isinstance(x, ast.Call)}
+    attrs = {x.attr for x in ast.walk(dflt) if isinstance(x, ast.Attribute) and src(x.value) == "self"}
+    unique = "id" in names and any(P.matches(x, "id(self)") for x in ast.walk(dflt)) or {"lineno", "pos"} <= attrs
+    ctx.check(unique, "unique", db.where(a[0]), "the default name `%s` is not unique per tag (it needs the tag object's identity, or line and column together): two anonymous <%%namespace import=...> tags can get the same name and all but the last are dropped" % src(dflt), "built from the tag's identity")
+    wt = db.func("codegen._GenerateRenderMethod.write_toplevel")
+    keyed = any(P.has(f_, "namespaces[%s.name] = %s" % (pn(f_, 1), pn(f_, 1))) for f_ in ast.walk(wt) if isinstance(f_, ast.FunctionDef) and f_ is not wt and f_.name == "visitNamespaceTag")
+    ctx.check(keyed, "table-keyed-by-name", db.where(wt), "namespace table is no longer keyed by the tag's name (rule out of date)", "namespaces[node.name] = node")
